@@ -678,7 +678,11 @@ def handleSettings (r : R) (st : Frame.SettingsVal) : R :=
   let pd := match announced with
     | some (_, v) => { r.s.peerDec with limit := v }
     | none => r.s.peerDec
-  let s := { r.s with peerFrameSize := st.frameSize, enc := r.s.enc.setMax st.tableSize, peerDec := pd }
+  -- the frame is applied on top of the stored settings: what it does not mention persists
+  let ts := match announced with
+    | some (_, v) => v
+    | none => r.s.peerTableSize
+  let s := { r.s with peerFrameSize := st.frameSize, peerTableSize := ts, enc := r.s.enc.setMax ts, peerDec := pd }
   ({ r with s := s } : R).emit .settingsAck
 
 /-- frames on stream 0 -/
